@@ -719,6 +719,9 @@ def m_join(I, recv, a, k, node, kind):
             I.may_raise(node, ['TypeError'], 'join of items of another type', (x,))
     u = Unk('join', kinds=kr, taint=tj(recv, *items), src=('method', recv, 'join', [seq, list(items)]))
     u.joined = (recv, seq, list(items))
+    sure = [x for x in (seq.items if isinstance(seq, AList) else items)]
+    if sure and any((isinstance(x, Unk) and 'truthy' in x.facts) or (is_concrete(x) and concrete(x)) for x in sure):
+        u.facts.add('truthy')
     return u
 
 
